@@ -3,7 +3,9 @@
 import json, os
 
 V = os.path.dirname(os.path.dirname(os.path.abspath(__file__)))
-index = json.load(open(os.path.join(V, "harness", "index.json")))
+_ns = {}
+exec(open(os.path.join(V, "harness", "index.py")).read(), _ns)
+index = _ns["INDEX"]
 claims = json.load(open(os.path.join(V, "tools", "claims.json")))
 props = [json.loads(l) for l in open(os.path.join(V, "properties.jsonl"))]
 
